@@ -795,6 +795,30 @@ def rule_f(ctx: Context, R: Reporter, bmap: FuncInfo, pred: FuncInfo):
                     msg=f"{f.short}: `{unparse(node)[:60]}` mutates the object returned by the cached helper {cf.short}: the change persists in the cache, so later calls with other "
                         f"periodic / reflective sets start from a coordinate set that earlier calls have already shrunk (coordinates silently stop being checked)",
                     key=f"cached-mutation:{f.short}")
+    # ... nor a mutable default argument (one object for all calls) of a function they run through
+    from ..util import mutable_default_mutations
+
+    scanned = 0
+    for g in ctx.cg.reachable([bmap, pred]):
+        scanned += 1
+        for (param, d, node) in mutable_default_mutations(g.node):
+            n += 1
+            R.check("C16.f", "no mutable default argument is modified by the boundary helpers", False, g, node,
+                    msg=f"{g.short}: `{unparse(node)[:60]}` modifies the default `{param}={unparse(d)}`, which is one object shared by every call: index sets designated in earlier "
+                        f"calls are still in it, so a later call with other periodic / reflective sets exempts (or folds) coordinates it was not asked to",
+                    key=f"cached-mutation:default:{g.short}:{param}")
+    # ... nor a process-lifetime memo whose key does not determine everything the memoised value was computed from
+    from ..util import memo_key_gaps, process_lifetime_memos
+
+    for g in ctx.cg.reachable([bmap, pred]):
+        for (st, container, key, value) in process_lifetime_memos(g.node, set(g.module.constants), g.cls.name if g.cls else None):
+            gaps = memo_key_gaps(g.node, key, value)
+            n += 1 if gaps else 0
+            R.check("C16.f", "a process-lifetime memo of the boundary helpers is keyed by everything its value depends on", not gaps, g, st,
+                    msg=f"{g.short}: `{unparse(st)[:60]}` memoises in `{container}` (which lives as long as the process) a value computed from {gaps}, but the key `{unparse(key)[:40]}` "
+                        f"does not determine {'them' if len(gaps) > 1 else 'it'} (only a count / shape, or not at all): a later call with other index sets of the same size gets the "
+                        f"first caller's coordinate set, so coordinates silently stop being checked / folded", key=f"cached-mutation:memo-key:{g.short}")
+    R.analysed["C16.f:functions scanned for shared mutable defaults"] = scanned
     R.check("C16.f", "the boundary helpers keep no state between calls", n == 0, bmap, bmap.node, key="stateless")
 
 
@@ -832,5 +856,38 @@ def variants():
         Variant("d-benign-dead-guard-same-limit", "benign", replace_stmt(mc, f, "remainder = val - n_reflect", "remainder = val - n_reflect\nremainder = np.where(remainder >= 1.0, 1.0, remainder)")),
         Variant("benign-remainder-mod1", "benign", replace_stmt(mc, f, "remainder = val - n_reflect", "remainder = val % 1.0"), quick=True),
         Variant("benign-periodic-floor", "benign", replace_expr(mc, f, "u[..., idx] % 1.0", "u[..., idx] - np.floor(u[..., idx])")),
+        Variant("f-memo-keyed-by-counts", "bad", _memo_key_variant(False), ["C16.f"], quick=True),
+        Variant("f-benign-memo-keyed-by-index-tuples", "benign", _memo_key_variant(True)),
+        Variant("f-mutable-default-special-set", "bad", _mutable_default_variant(True), ["C16.f"], quick=True),
+        Variant("f-benign-none-default-special-set", "benign", _mutable_default_variant(False)),
         Variant("benign-rename", "benign", alpha_rename(mc, f, "n_reflect", "k_fold")),
     ]
+
+
+def _mutable_default_variant(shared: bool):
+    """check_bounds builds the exempt set through a helper whose accumulator is a default argument"""
+    from ..variants import chain, insert_before_function, replace_stmt
+
+    mc = "tempest/mcmc.py"
+    helper = ("def _special_indices(periodic=None, reflective=None, special=set()):\n" if shared else
+              "def _special_indices(periodic=None, reflective=None, special=None):\n    special = set() if special is None else special\n") + \
+        "    if periodic is not None:\n        special.update(periodic)\n    if reflective is not None:\n        special.update(reflective)\n    return special\n"
+    return chain(
+        insert_before_function(mc, "check_bounds", helper),
+        replace_stmt(mc, "check_bounds", "special_indices = set()", "special_indices = _special_indices(periodic, reflective)"),
+    )
+
+
+def _memo_key_variant(complete: bool):
+    """check_bounds records the strict index list in a module-level memo keyed by counts and reads it back (bad) / only
+    records it under the full index tuples (benign)"""
+    from ..variants import chain, insert_after, insert_before_function
+
+    mc = "tempest/mcmc.py"
+    key = ("(n_dim, None if periodic is None else tuple(int(i) for i in periodic), None if reflective is None else tuple(int(i) for i in reflective))" if complete
+           else "(n_dim, 0 if periodic is None else len(periodic), 0 if reflective is None else len(reflective))")
+    tail = "" if complete else "\nstrict_indices = _STRICT[layout]"
+    return chain(
+        insert_before_function(mc, "check_bounds", "_STRICT = {}\n"),
+        insert_after(mc, "check_bounds", "strict_indices = list(all_indices - special_indices)", "layout = " + key + "\nif layout not in _STRICT:\n    _STRICT[layout] = strict_indices" + tail),
+    )
